@@ -128,4 +128,22 @@ theorem is_na_numba_code (truth : Term → Bool) :
       Out.ret [Term.app "for" [Term.sym "i", Term.app "range" [Term.app "len" [Term.sym "x"]], Term.app "block"
         [Term.app "store" [Term.app "getitem" [na, Term.sym "i"], Term.app "is_na_item_numba" [Term.app "getitem" [Term.sym "x", Term.sym "i"]]]]]] na := rfl
 
+/-! ### the Python kernels of the same helpers, side by side (C08 compares the two paths: both shapes are its obligations) -/
+
+def perGroupPy (value : Term) : Term :=
+  Term.app "for" [Term.sym "xg", Term.app "yield_groups" [Term.sym "x", Term.sym "group", Term.sym "drop_na"],
+    Term.app "block" [Term.app "yield" [value]]]
+
+/-- the two quantile kernels apply the SAME expression to a run (`np.quantile(xg, q)`, NaN for an empty run); the two
+    count_unique kernels differ only in `len(set(xg))` vs `len(np.unique(xg))`; the two scans are one scan. -/
+theorem python_kernels_same_shape (truth : Term → Bool) :
+    agg_quantile_apply_py truth = Out.fall [perGroupPy (Term.app "ifexp" [Term.app "GtE" [Term.app "len" [Term.sym "xg"], Term.int 1],
+      Term.app "np.quantile" [Term.sym "xg", Term.sym "q"], Term.sym "np.nan"])] ∧
+    agg_count_unique_apply_py truth = Out.fall [perGroupPy (Term.app "len" [Term.app "set()" [Term.sym "xg"]])] ∧
+    agg_yield_groups_py truth = Out.fall [groupScan (fun r => Term.app ".is_na" [r]) (fun r => Term.app "yield" [r])] ∧
+    agg_generic_py truth = Out.ret [] (Term.app "local-def" [Term.app "def" [Term.app "decorator" [Term.sym "deco.listify"], Term.sym "aggregate",
+      Term.app "params" [Term.sym "x", Term.sym "group", Term.sym "drop_na", Term.sym "default", Term.sym "nrequired"],
+      Term.app "block" [perGroupPy (Term.app "ifexp" [Term.app "GtE" [Term.app "len" [Term.sym "xg"], Term.sym "nrequired"],
+        Term.app "function" [Term.sym "xg", Term.app "=**" [Term.sym "kwargs"]], Term.sym "default"])]]]) := ⟨rfl, rfl, rfl, rfl⟩
+
 end DI.Tie.C08
